@@ -89,6 +89,9 @@ def run(ck, fx, cg, tier):
         ck.ob("R4.source", "%s|input reader" % fn, ok, where,
               "the input reader is %s" % why if ok else "the bytes of a file can be altered before the loader sees them: the input reader is %s" % why)
     ck.floor("R4.source", "places that build the CLI's input reader", len(sites), 1)
+    # "any file in that layout is loaded as the program it denotes": beyond the per-kind layouts, the loader as a whole
+    # (C03's rules: code appended as read, labels derived from the complete pool by the shared function, no refusals)
+    shared.presuppose(ck, fx, cg, "C03", lambda o: o["rule"] == "R3.reload", "R4.reader", "loader|the program frame is assembled as the layout says", floor=5)
     from . import shared as _sh
     okd, whered, whyd = _sh.bc_deserialize_plain(fx, A)
     if ck.anchor("R4.source", "BCSerializer::deserialize", True if okd is not None else None):
